@@ -728,6 +728,10 @@ func TestVerifNhsim(t *testing.T) {
 		rec.keep = func(ev string) bool {
 			return ev == "Init" || ev == "CC" || ev == "Members" || ev == "Panic"
 		}
+	case "quiesce":
+		rec.keep = func(ev string) bool {
+			return ev == "Init" || ev == "Req" || ev == "Served" || ev == "Phase" || ev == "Fault" || ev == "Crash" || ev == "Panic"
+		}
 	case "import":
 		rec.keep = func(ev string) bool {
 			return ev != "Send" && ev != "Save" && ev != "Enter" && ev != "Exit" && ev != "Inv" && ev != "Res" && ev != "Leader" && ev != "Boot" && ev != "Apply"
@@ -765,6 +769,10 @@ func TestVerifNhsim(t *testing.T) {
 		}
 		if mode == "member" {
 			nhScenarioMember(rec, tid, s, sms[(tid/2)%3], p.store, nhEnvInt("VERIF_ROUNDS", 14))
+			continue
+		}
+		if mode == "quiesce" {
+			nhScenarioQuiesce(rec, tid, s, sms[(tid/2)%3], p.store, nhEnvInt("VERIF_ROUNDS", 4))
 			continue
 		}
 		if mode == "import" {
